@@ -1053,21 +1053,57 @@ class ConcreteUF:
         prev = explore._CUR
         explore._CUR = None
         try:
-            # build the application term without touching path state
-            def coerce(a):
-                if fam in ("int", "bv") and isinstance(a, (Fraction, float)) and _frac_of(a).denominator == 1:
-                    return int(a)
-                return a
-            terms = [_arg_term(coerce(a), fam) for a in args]
             kws = tuple(sorted(kwargs))
-            terms += [_arg_term(coerce(kwargs[k]), fam) for k in kws]
-            sorts = tuple(t.sort() for t in terms)
-            rs = {"int": z3.IntSort(), "real": z3.RealSort(), "bv": z3.BitVecSort(BVW)}[fam]
-            key = (self.uf.name, len(args), kws, tuple(str(s) for s in sorts), str(rs))
-            f = _UF_REGISTRY.get(key)
-            if f is None:
+            vals = list(args) + [kwargs[k] for k in kws]
+            rs_name = str({"int": z3.IntSort(), "real": z3.RealSort(), "bv": z3.BitVecSort(BVW)}[fam])
+            # the function symbol is keyed by argument sorts; find the registered signature(s) for this
+            # name/arity and cast the concrete arguments to them (ints fit Real, integral fractions fit Int)
+            cands = []
+            in_model = {d.name() for d in self.model.decls()}
+            for key, f in _UF_REGISTRY.items():
+                if key[0] != self.uf.name or key[1] != len(args) or key[2] != kws or key[4] != rs_name:
+                    continue
+                terms = []
+                ok = True
+                exact = True
+                for v, sname in zip(vals, key[3]):
+                    fr = _frac_of(v) if isinstance(v, (int, float, Fraction)) and not isinstance(v, bool) else None
+                    if sname == "Int":
+                        if isinstance(v, bool):
+                            terms.append(z3.IntVal(int(v)))
+                            exact = False
+                        elif fr is not None and fr.denominator == 1:
+                            terms.append(z3.IntVal(int(fr)))
+                            exact = exact and isinstance(v, int)
+                        else:
+                            ok = False
+                    elif sname == "Real":
+                        if fr is None and not isinstance(v, bool):
+                            ok = False
+                        else:
+                            terms.append(_realval(v))
+                            exact = exact and not isinstance(v, int)
+                    elif sname == "Bool":
+                        if isinstance(v, bool):
+                            terms.append(z3.BoolVal(v))
+                        else:
+                            ok = False
+                    else:   # BitVec
+                        if fr is not None and fr.denominator == 1 or isinstance(v, bool):
+                            terms.append(_bvval(int(v)))
+                        else:
+                            ok = False
+                    if not ok:
+                        break
+                if ok:
+                    fname = f.name() if isinstance(f, z3.FuncDeclRef) else f.decl().name()
+                    cands.append((fname in in_model, exact, f, terms))
+            if not cands:
                 return 0
-            t = f(*terms) if sorts else f
+            # prefer function symbols the model actually interprets, then exact sort matches
+            cands.sort(key=lambda c: (c[0], c[1]), reverse=True)
+            _, _, f, terms = cands[0]
+            t = f(*terms) if terms else f
             return term_value(self.model.eval(t, model_completion=True))
         finally:
             explore._CUR = prev
